@@ -26,6 +26,10 @@ CHECKS = {
          "exhaustive enumeration of handler fault positions (handler i, invocation k, error|panic) over every reachable state x accepted range, sequential and parallel deletion path, on the real store",
          "Every accepted range in every BFS state, with 1 and 2 registered handlers that read the header through GetByHeight, no fault and every (i,k,error|panic); oracle: per removed height each handler exactly once, header readable inside the handler, no datastore delete of its keys in the commit log before the last handler returned, failing height stays readable, error surfaced, tail-side retry re-invokes handlers and completes. The parallel path is reached by lowering the threshold through the verif hook.",
          "Parallel path runs with real goroutines (48 workers) inside the bubble: its internal interleavings are sampled by the Go scheduler, not enumerated.", "2.2 C14"),
+ "C06": ("E3-crashx", "fault_enumeration",
+         "exhaustive crash-point enumeration (every commit-log prefix of every transition of the explored state graph) and exhaustive placement of 1..3 consecutive failing flush writes, on the real store",
+         "BFS over {Append slices, DeleteRanges, Restart} (depth 3 quick / 4 thorough) x batch sizes x datastore flavour; (a) in every state a clean Stop/Start must reproduce the whole observation vector; (b) for every transition every prefix of the datastore commit log inside the last operation and the final Stop is reopened by a fresh Store: Start succeeds, Head/Tail resolve, no gap, committed headers retrievable, no dangling pointer, appending the continuation moves Head to the tip; (c) every placement of 1..3 failing batch-creation/commit writes is driven to quiescence in virtual time (retry back-off) and checked with the C04 oracle + restart.",
+         "Crash granularity = one direct write or one batch commit; torn single writes are not modelled. The Stop-vs-flush-loop interleaving is not enumerated here (see C17/C12 engine). Open finding F08 reported as KNOWN-FINDING.", "2.2 C06"),
 }
 
 NOT_APPLICABLE = {}
